@@ -1,9 +1,9 @@
 package main
 
 import (
-	"sort"
 	"go/token"
 	"go/types"
+	"sort"
 
 	"golang.org/x/tools/go/ssa"
 )
